@@ -60,7 +60,8 @@ class Tagger:
     def _t(self, kind, dargs, ctx):
         inst = dargs.get("t")
         ctx["log"].append((kind, self.name, inst))
-        return "<%s:%s:%s>" % (kind, self.name, inst)
+        extra = "+" + "|".join(map(str, dargs["ts"])) if dargs.get("ts") is not None else ""
+        return "<%s:%s:%s%s>" % (kind, self.name, inst, extra)
 
     async def on_post_input_coercion(self, dargs, nxt, parent_node, value, ctx):
         r = await nxt(parent_node, value, ctx)
@@ -145,7 +146,7 @@ class Model:
     def sdl(self):
         p = self.p
         return "\n".join(
-            ["directive @%s(t: String) on %s" % (n, LOCS) for n in DNAMES] + [
+            ["directive @%s(t: String, ts: [String]) on %s" % (n, LOCS) for n in DNAMES] + [
                 "scalar Str%s" % p(self.str_dirs),
                 "enum Color%s { %s }" % (p(self.color_dirs), " ".join(v + p(self.value_dirs[v]) for v in ENUM_VALUES)),
                 "input In%s { s: Str%s c: Color%s n: In%s }" % (p(self.in_dirs), p(self.in_fields["s"]), p(self.in_fields["c"]), p(self.in_fields["n"])),
@@ -157,7 +158,7 @@ class Model:
 
 
 def T(kind, dirs):
-    return "".join("<%s:%s:%s>" % (kind, n, t) for n, t in reversed(dirs))
+    return "".join("<%s:%s:%s%s>" % (kind, d[0], d[1], ("+" + "|".join(d[2])) if len(d) > 2 else "") for d in reversed(dirs))
 
 
 class Fold:
@@ -210,7 +211,7 @@ class Fold:
         return "out(%s)" % (T("O", self.m.obj_dirs) + T("F", self.m.obj_t_dirs) + T("O", self.m.str_dirs))
 
 
-TAG_RE = re.compile(r"<[IAFO]:[a-z]+:(k\d+)>")
+TAG_RE = re.compile(r"<[IAFO]:[a-z]+:(k\d+)(?:\+[^>]*)?>")
 
 
 def canon_trace(s, enum_ids):
@@ -261,6 +262,8 @@ def gen_request(rng, m):
     fold = Fold(m)
     sels, vardefs, variables, expected, received = [], [], {}, {}, {}
     expected_enum_out = []
+    revar = []          # variables feeding directive arguments: re-bound for the second execution
+    pending_echo = []   # (alias, args, query-side directives) resolved against the variable values at fold time
     nv = [0]
 
     def spell(name, typ, v, as_enum=False):
@@ -311,13 +314,27 @@ def gen_request(rng, m):
                 qd = []
                 names = list(DNAMES)
                 rng.shuffle(names)
+                texts = []
                 for name in names[: rng.choice([0, 1, 2])]:
                     m.n += 1
-                    qd.append((name, "k%d" % m.n))
+                    inst = "k%d" % m.n
+                    if rng.random() < 0.4:
+                        # list-valued directive argument with a variable nested in the literal
+                        nv[0] += 1
+                        vn = "v%d" % nv[0]
+                        vardefs.append("$%s: String" % vn)
+                        variables[vn] = rng.choice(["x", "y", "z"])
+                        revar.append(vn)
+                        ts = ["p", ("var", vn)]
+                        qd.append((name, inst, ts))
+                        texts.append(' @%s(t: "%s", ts: ["p", $%s])' % (name, inst, vn))
+                    else:
+                        qd.append((name, inst))
+                        texts.append(' @%s(t: "%s")' % (name, inst))
                 qdirs_all.extend(qd)
-                parts.append("%s: %s%s" % (alias, call, Model.p(qd)))
+                parts.append("%s: %s%s" % (alias, call, "".join(texts)))
             sels.append(" ".join(parts))
-            expected[alias] = fold.echo(args, qdirs_all)
+            pending_echo.append((alias, args, qdirs_all))
         elif kind == "color":
             v = rng.choice(ENUM_VALUES)
             sels.append("%s: echoColor(c: %s)" % (alias, spell("c", "Color", v, as_enum=True)))
@@ -334,7 +351,19 @@ def gen_request(rng, m):
         frag = " fragment Fr on Query { %s }" % " ".join(sels)
         sels = ["...Fr", "... on Query { ...Fr }"] if rng.random() < 0.5 else ["...Fr", "...Fr"]
     q = "query%s { %s }%s" % ("(" + ", ".join(vardefs) + ")" if vardefs else "", " ".join(sels), frag)
-    return q, variables, expected, received, "".join(expected_enum_out)
+    def expect_for(vals):
+        exp = dict(expected)
+        for alias, args, qd in pending_echo:
+            bound = [(d[0], d[1], [x if isinstance(x, str) else vals[x[1]] for x in d[2]]) if len(d) > 2 else d for d in qd]
+            exp[alias] = fold.echo(args, bound)
+        return exp
+    runs = [(variables, expect_for(variables))]
+    if revar:
+        v2 = dict(variables)
+        for vn in revar:
+            v2[vn] = v2[vn] + "2"
+        runs.append((v2, expect_for(v2)))
+    return q, runs, received, "".join(expected_enum_out)
 
 
 async def build(m):
@@ -374,14 +403,26 @@ async def run_case(ctx, rng, index):
         return
     try:
         for _ in range(REQS_PER_SCHEMA):
-            q, variables, expected, received, enum_out = gen_request(rng, m)
+            q, runs, received, enum_out = gen_request(rng, m)
+            for variables, expected in runs:
+                await run_one(ctx, m, e, sdl, q, variables, expected, received, enum_out)
+            st.sample({"sdl": sdl[:900], "query": q, "variables": runs[0][0], "expected": runs[0][1]}, limit=2)
+        await null_spellings(ctx, rng, m, e, sdl)
+    finally:
+        boot.forget_schema(name)
+
+
+async def run_one(ctx, m, e, sdl, q, variables, expected, received, enum_out):
+    st = ctx.stats
+    if True:
+        if True:
             case = {"sdl": sdl, "query": q, "variables": variables}
             c = {"log": [], "resolver_calls": [], "received": {}, "enum_out": []}
             try:
                 resp = await e.execute(q, variables=variables, context=c)
             except Exception as ex:  # noqa
                 ctx.violation("execute-raised", repr(ex), case)
-                continue
+                return
             st.inc("evaluations")
             st.inc("hook_calls", len(c["log"]))
             ctx.log(q, variables)
@@ -389,7 +430,7 @@ async def run_case(ctx, rng, index):
             ctx.log("expected:", X.jdump(expected)[:1500])
             if resp.get("errors"):
                 ctx.violation("unexpected-errors", X.jdump(resp["errors"])[:300], case)
-                continue
+                return
             data = resp["data"]
             ok = True
             for k, exp in expected.items():
@@ -420,6 +461,54 @@ async def run_case(ctx, rng, index):
                         ctx.violation("hook-never-invoked", "instance %s" % inst, case)
             if sum(want.values()) >= 3:
                 st.distinct("nontrivial", (sdl, q, X.jdump(variables)))
-            st.sample({"sdl": sdl[:900], "query": q, "variables": variables, "data": data}, limit=2)
-    finally:
-        boot.forget_schema(name)
+
+
+async def null_spellings(ctx, rng, m, e, sdl):
+    """The same input containing nulls, spelled as literals / through variables / nested variables, must run the same
+    hook instances (a tag cannot be attached to null, so the hook LOG is compared)."""
+    st = ctx.stats
+    obj = {"s": None if rng.random() < 0.6 else "v", "c": rng.choice(ENUM_VALUES + [None])}
+    if rng.random() < 0.4:
+        obj["n"] = {"s": None}
+    lst = [rng.choice(["a", None]) for _ in range(rng.randint(1, 3))]
+
+    def lit_null(v):
+        if v is None:
+            return "null"
+        if isinstance(v, dict):
+            return "{" + ", ".join("%s: %s" % (k, (x if (k == "c" and x is not None) else lit_null(x))) for k, x in v.items()) + "}"
+        if isinstance(v, list):
+            return "[" + ", ".join(lit_null(x) for x in v) + "]"
+        return esc_string(v)
+    spellings = [
+        ("literal", "{ echo(i: %s, l: %s) }" % (lit_null(obj), lit_null(lst)), {}),
+        ("variables", "query($i: In, $l: [Str]) { echo(i: $i, l: $l) }", {"i": obj, "l": lst}),
+    ]
+    k = rng.choice(sorted(obj))
+    kt = {"s": "Str", "c": "Color", "n": "In"}[k]
+    nested_obj = "{" + ", ".join("%s: %s" % (kk, "$x" if kk == k else (x if (kk == "c" and x is not None) else lit_null(x))) for kk, x in obj.items()) + "}"
+    i0 = rng.randrange(len(lst))
+    nested_lst = "[" + ", ".join("$y" if j == i0 else lit_null(x) for j, x in enumerate(lst)) + "]"
+    spellings.append(("nested-variables", "query($x: %s, $y: Str) { echo(i: %s, l: %s) }" % (kt, nested_obj, nested_lst), {"x": obj[k], "y": lst[i0]}))
+    logs = []
+    for label, q, variables in spellings:
+        c = {"log": [], "resolver_calls": [], "received": {}, "enum_out": []}
+        case = {"sdl": sdl, "query": q, "variables": variables}
+        try:
+            resp = await e.execute(q, variables=variables, context=c)
+        except Exception as ex:  # noqa
+            ctx.violation("execute-raised", repr(ex), case)
+            return
+        st.inc("evaluations")
+        st.inc("null_spelling_runs")
+        if resp.get("errors"):
+            ctx.violation("unexpected-errors", "%s: %s" % (label, X.jdump(resp["errors"])[:300]), case)
+            return
+        logs.append((label, sorted(c["log"], key=repr), resp["data"], q, variables))
+    base = logs[0]
+    for other in logs[1:]:
+        if other[1] != base[1]:
+            only_a = [x for x in base[1] if x not in other[1]]
+            only_b = [x for x in other[1] if x not in base[1]]
+            ctx.violation("hooks-differ-between-literal-and-variable", "%s ran %s extra, %s ran %s extra; queries: %s | %s %s" % (
+                base[0], only_a[:4], other[0], only_b[:4], base[3], other[3], other[4]), {"sdl": sdl, "query": other[3], "variables": other[4]})
